@@ -4,7 +4,7 @@ from vlib import common, decsuite, picgen, refdec, h263spec as S
 from vlib.common import hexs
 from vlib.decsuite import D, parse_tok, cls_kind, planes_of
 
-THEOREMS = ["C02_intra_picture", "C02_picture_body_roundtrip", "C02_block_roundtrip", "C02_macroblock_roundtrip", "C02_dequant_exact", "C02_zigzag_is_antidiagonal_walk", "C02_intradc_levels", "C02_block_placement", "C02_code_tables", "C02_transform_placement"]
+THEOREMS = ["C02_intra_picture", "C02_picture_body_roundtrip", "C02_block_roundtrip", "C02_macroblock_roundtrip", "C02_dequant_exact", "C02_zigzag_is_antidiagonal_walk", "C02_intradc_levels", "C02_block_placement", "C02_code_tables", "C02_transform_placement", "C02_intra_picture_accurate"]
 BRIDGES = ["BridgeTables"]
 
 
@@ -60,7 +60,7 @@ def oracle_check(ctx, idx, desc, tok, ref=None):
 
 def run(ctx):
     thorough = ctx.tier == "thorough"
-    broken = common.proof_step(ctx, THEOREMS, BRIDGES, allowed_axioms=common.REALS_AXIOMS)
+    broken = common.proof_step(ctx, THEOREMS, BRIDGES, allowed_axioms=common.REALS_AXIOMS + common.PRIMITIVE_AXIOMS, coqchk_admit=("proofs.BasisTable",))
     err = common.ensure_runners(ctx)
     if err:
         ctx.violation({"kind": "build", "names": "harness build failed", "log": err[-2000:]}, "harness does not build", found_input=False)
